@@ -4,7 +4,7 @@ import json
 import os
 
 ROOT = "/verif"
-HOOK_COMMITS = ["9464261", "db74668", "82c77a2", "4c6d354"]
+HOOK_COMMITS = ["9464261", "db74668", "82c77a2", "4c6d354", "d980f79"]
 
 TB = ("Trusted: Coq 8.16.1 kernel (+vm_compute for evaluating the model on correspondence cases; no native_compute); "
       "the hand-written Gallina model, tied to /repo only by this check's correspondence run against the binary built from /repo's working tree with --cfg vicut_verif; "
@@ -64,6 +64,20 @@ CLAIMED = {
         note=TB + "Raw ESC followed by '[' or 'O' is an escape sequence by definition and excluded; 'alias' is the code's grammar (so <a> is the key A).",
         technique="Coq proof (byte-level reader model, induction over tokens, lia for UTF-8 arithmetic) + model-vs-binary correspondence",
         design="§9 C15"),
+    "C01": dict(
+        text="Theorems (every segmentation of every buffer, multi-byte clusters included): slicing through a fresh cache returns whole clusters and a contiguous stretch; what read_field returns after the key loop is the stretch between the cursor before and after the command, both ends included, clamped into the buffer; "
+             "charwise/linewise selections yield exactly the selected clusters. The key loop is a parameter. Correspondence: the real read_field (in-process) on 2.5k/20k (text, start cursor, earlier commands, command) cases vs the model evaluated on the dumped buffer/cache/cursors/selection; "
+             "oracles on the fresh segmentation: field = clusters between the cursors / the selection (block rows included); non-editing commands leave the buffer unchanged.",
+        note=TB + "That motions/selections/yanks never change the text is checked on the implementation (every case) but not yet proved: it needs the editor-core model.",
+        technique="Coq proof (byte-offset/cluster lemmas, clamp arithmetic) + model-vs-binary correspondence on dumped states",
+        design="§9 C01"),
+    "C07": dict(
+        text="Theorems (every history of commands, u and <c-r>, every text): the stacks are chains of whole texts ending in the current text (invariant by induction over the history); u after a change returns the text before it; an insert session is one change; length-of-stack u's return the original input; "
+             "<c-r> after u restores text and stacks; a change drops the redo history; the text after any history is the input or a text some command produced (no new states); the model has no failing outcome. "
+             "Correspondence: every ViCmd executed by LineBuf::exec_cmd is traced by the hook and replayed on the model; final buffer and both stacks must match; oracles: no panic at u/<c-r>, earlier-state membership, 14 trailing u's return the input.",
+        note=TB + "What each command does to the text is taken from the trace (parametric).",
+        technique="Coq proof (chain invariant by induction over operation lists) + trace replay correspondence",
+        design="§9 C07"),
 }
 
 NOT_YET = {}
